@@ -91,12 +91,17 @@ SumReals(vs, acc) == IF vs = <<>> THEN acc
                      ELSE IF Head(vs).c # "fin" THEN XUnk
                      ELSE LET r == RAdd(acc, Head(vs)) IN IF r.t = "unk" THEN r ELSE SumReals(Tail(vs), r)
 
+RECURSIVE SumIvs(_, _)
+SumIvs(vs, acc) == IF vs = <<>> THEN Val(acc)
+                   ELSE LET r == ArithV("+", acc, Head(vs)) IN IF r.k # "val" THEN r ELSE SumIvs(Tail(vs), r.v)
+
 AllOf(vs, ty) == \A i \in 1..Len(vs) : vs[i].t = ty
 
 SumOf(vs) ==    \* vs non-NULL, non-empty
   IF AllOf(vs, "int") THEN (LET r == SumInts(Tail(vs), Head(vs)) IN
                              IF r.t = "unk" THEN Unk ELSE IF r.t = "ovf" THEN (IF "UncheckedArith" \in Dev THEN Panic ELSE Err) ELSE Val(r))
   ELSE IF AllOf(vs, "real") THEN (IF Head(vs).c # "fin" THEN Unk ELSE LET r == SumReals(Tail(vs), Head(vs)) IN IF r.t = "unk" THEN Unk ELSE Val(r))
+  ELSE IF AllOf(vs, "iv") THEN SumIvs(Tail(vs), Head(vs))
   ELSE Unk
 
 RECURSIVE Extreme(_, _, _)
@@ -122,9 +127,6 @@ RECURSIVE JoinText(_, _, _)
 JoinText(vs, delim, acc) == IF vs = <<>> THEN acc ELSE JoinText(Tail(vs), delim, acc \o delim \o Head(vs).s)
 
 IsPow2(n) == n \in {1, 2, 4, 8, 16}
-RECURSIVE ISqrt(_, _)
-ISqrt(n, r) == IF r * r >= n THEN r ELSE ISqrt(n, r + 1)
-PerfectSquare(n) == n >= 0 /\ ISqrt(n, 0) * ISqrt(n, 0) = n
 
 \* the value of one aggregate over the group's environments (before the wrapper)
 AggValue(it, envs) ==
@@ -148,6 +150,7 @@ AggValue(it, envs) ==
                            ELSE LET s == SumOf(vs)
                                 IN IF s.k # "val" THEN s
                                    ELSE IF s.v.t = "int" THEN (IF s.v.b # 0 THEN Unk ELSE Val(IntV(TruncDiv(s.v.i, Len(vs)))))   \* AVG of INT: integer division (pinned by the repository's tests; the property leaves it open)
+                                   ELSE IF s.v.t = "iv" THEN (IF s.v.ms % Len(vs) = 0 THEN Val(IvV(s.v.ms \div Len(vs))) ELSE Unk)       \* AVG of INTERVAL: exact quotients only
                                    ELSE IF IsPow2(Len(vs)) THEN (LET r == RealRes(s.v.n, s.v.d * Len(vs)) IN IF r.t = "unk" THEN Unk ELSE Val(r))
                                    ELSE Unk
                       [] it.a \in {"bool_and", "bool_or"} ->
